@@ -25,7 +25,7 @@
  * top of it); on failure NOTHING allocated by the call survives, the stack view and the node are unchanged and
  * the node still belongs to the caller */
 static int processAndInsertNode(KSI_TreeBuilder *builder, KSI_TreeNode *node)
-__CPROVER_requires(builder != NULL && builder->ctx != NULL && builder->hsr != NULL && node != NULL && g_live >= 0 && g_live < 100000)
+__CPROVER_requires(builder != NULL && builder->ctx != NULL && builder->hsr != NULL && node != NULL && g_live >= 0 && g_live < 50000)
 __CPROVER_requires(((node->hash != NULL) != (node->metaData != NULL)) && node != &g_occ && node->parent == NULL)
 /* builder invariant as in contracts/tree_builder_insert.h: occupied slots hold the (well-formed) representative occupant */
 __CPROVER_requires((g_occ.hash != NULL) != (g_occ.metaData != NULL) && g_occ.level <= 0xff)
@@ -62,6 +62,9 @@ __CPROVER_requires(builder == NULL || builder->ctx != NULL)
 __CPROVER_requires(hsh == NULL || hsh->ref >= 1)
 __CPROVER_requires(metaData == NULL || metaData->ref >= 1)
 __CPROVER_requires(leaf == NULL || leaf == &g_leaf_out)
+/* builder invariant (contracts/tree_builder_insert.h): occupied slots hold the well-formed representative occupant */
+__CPROVER_requires((g_occ.hash != NULL) != (g_occ.metaData != NULL) && g_occ.level <= 0xff)
+__CPROVER_requires(builder == NULL || __CPROVER_forall { int i; (0 <= i && i < KSI_TREE_BUILDER_STACK_LEN) ==> TB_SLOT_OK(builder, i) })
 __CPROVER_requires(g_pin_calls == 0 && g_chl_calls == 0 && g_lwo_calls == 0 && g_live >= 0 && g_live < 1000)
 __CPROVER_requires(g_w1 < g_w2 && g_w2 < KSI_TREE_BUILDER_STACK_LEN)
 /* (A1) accepted => arguments fine, tree not closed, the node was handed over exactly once and accepted */
